@@ -53,10 +53,11 @@ func classesOf(text string) []string {
 }
 
 type c05Pkg struct {
-	name  string
-	src   string
-	ndefs int
-	key   string // finding key class of the adversarial text used
+	mayReject bool // a conversion error for this package is a fine answer (quotes inside string literals)
+	name      string
+	src       string
+	ndefs     int
+	key       string // finding key class of the adversarial text used
 }
 
 func c05Package(i int, text string, quoted bool) c05Pkg {
@@ -113,15 +114,22 @@ func Arr%d(n uint64) uint64 {
 	return uint64(len(z))
 }
 
+func LogPtr%d(p *uint64, q *uint64) uint64 {
+	log.Println(*p)
+	fmt.Println(*p, (*q)*2)
+	log.Printf("%%d", (*p)+(*q))
+	return *p
+}
+
 func Last%d() uint64 {
 	return 7
 }
-`, strings.ReplaceAll(docLines[0], "\n", " "), i, doc.String(), i, strings.ReplaceAll(docLines[0], "\n", " "), i, esc, esc, esc, esc, esc, i, strLit, i, i)
+`, strings.ReplaceAll(docLines[0], "\n", " "), i, doc.String(), i, strings.ReplaceAll(docLines[0], "\n", " "), i, esc, esc, esc, esc, esc, i, strLit, i, i, i)
 	key := "c05.text"
 	if quoted {
 		key = "c05.comment-odd-quote"
 	}
-	return c05Pkg{name: fmt.Sprintf("w%d", i), src: src, ndefs: 6, key: key}
+	return c05Pkg{name: fmt.Sprintf("w%d", i), src: src, ndefs: 7, key: key}
 }
 
 var typeCtorArity = map[string]int{"slice.T": 1, "mapT": 1, "arrayT": 1, "struct.t": 1, "zero_val": 1, "NewSlice": 2, "SliceGet": 3, "NewMap": 3}
@@ -179,6 +187,11 @@ func C05(c *ev.Ctx) {
 	for i, t := range c05Quoted {
 		pkgs = append(pkgs, c05Package(len(texts)+i, t, true))
 	}
+	// string literals that contain double quotes (rejected at the pin: judged only if the translator accepts them)
+	for i, lit := range []string{`"5\" nail"`, `"say \"hi\" (*"`, "`raw \"q\" *)`", `"a\x22b"`, `"\""`} {
+		src := fmt.Sprintf("package gen\n\nfunc Before%d() uint64 {\n\treturn 1\n}\n\nfunc Quoted%d() string {\n\treturn %s\n}\n\nfunc After%d() uint64 {\n\treturn 2\n}\n", i, i, lit, i)
+		pkgs = append(pkgs, c05Pkg{name: fmt.Sprintf("wq%d", i), src: src, ndefs: 3, key: "c05.text", mayReject: true})
+	}
 	for _, p := range pkgs {
 		d := filepath.Join(m.dir, p.name)
 		_ = os.MkdirAll(d, 0755)
@@ -207,6 +220,9 @@ func C05(c *ev.Ctx) {
 		}
 		for _, p := range pkgs {
 			text, ok := gout.files[p.name]
+			if !ok && p.mayReject {
+				continue
+			}
 			if !ok {
 				c.Violation("c05.rejected", fmt.Sprintf("goose rejects package %s (flags %v):\n%s", p.name, flags, extractErrors(gout.stderr, p.name)), map[string]string{"gen.go": p.src})
 				continue
@@ -255,6 +271,7 @@ func C05(c *ev.Ctx) {
 			}
 		}
 	}
+	c05Stale(c, pkgs[0])
 	richChecked := c05Rich(c, flagSets)
 	c.Set("rich_packages_checked", richChecked)
 	// lexical verdicts from the specification
@@ -421,4 +438,48 @@ func c05Rich(c *ev.Ctx, flagSets [][]string) int {
 		}
 	}
 	return checked
+}
+
+// c05Stale: the emitted file is exactly the translation of the current source also when the output directory already
+// holds the (longer) translation of an earlier version of the package.
+func c05Stale(c *ev.Ctx, p c05Pkg) {
+	root := filepath.Join(c.Scratch, "c05stale")
+	_ = os.RemoveAll(root)
+	_ = os.MkdirAll(filepath.Join(root, "pk"), 0755)
+	gomod := fmt.Sprintf("module example.com/st\n\ngo 1.22\n\nrequire github.com/goose-lang/goose v0.0.0\n\nreplace github.com/goose-lang/goose => %s\n", c.Repo)
+	_ = os.WriteFile(filepath.Join(root, "go.mod"), []byte(gomod), 0644)
+	sum, _ := os.ReadFile(filepath.Join(c.Repo, "go.sum"))
+	_ = os.WriteFile(filepath.Join(root, "go.sum"), sum, 0644)
+	long := p.src + "\n// a trailing declaration that the next version no longer has\nfunc Trailing() uint64 {\n\treturn 99\n}\n"
+	run := func(out string) (string, int) {
+		cmd := execCommand(filepath.Join(c.Bin, "goose"), "-out", out, "-dir", root, "./pk")
+		cmd.Env = goEnv()
+		b, err := cmd.CombinedOutput()
+		code := 0
+		if ee, ok := err.(interface{ ExitCode() int }); ok {
+			code = ee.ExitCode()
+		} else if err != nil {
+			code = -1
+		}
+		return string(b), code
+	}
+	outA, outB := filepath.Join(root, "_outA"), filepath.Join(root, "_outB")
+	_ = os.WriteFile(filepath.Join(root, "pk", "gen.go"), []byte(long), 0644)
+	if o, code := run(outA); code != 0 {
+		c.Inconclusive("c05Stale: goose exit %d\n%s", code, firstLines(o, 5))
+		return
+	}
+	_ = os.WriteFile(filepath.Join(root, "pk", "gen.go"), []byte(p.src), 0644)
+	o1, c1 := run(outA)
+	o2, c2 := run(outB)
+	if c1 != 0 || c2 != 0 {
+		c.Inconclusive("c05Stale: goose exit %d / %d\n%s%s", c1, c2, firstLines(o1, 4), firstLines(o2, 4))
+		return
+	}
+	a, _ := os.ReadFile(filepath.Join(outA, "example_com", "st", "pk.v"))
+	b, _ := os.ReadFile(filepath.Join(outB, "example_com", "st", "pk.v"))
+	if string(a) != string(b) || len(a) == 0 {
+		c.Violation("c05.stale-output", fmt.Sprintf("the file written over an earlier (longer) translation of the same package is not the translation of the current source (%d bytes, a fresh output directory gets %d): text that does not come from the source changes which definitions Coq sees", len(a), len(b)),
+			map[string]string{"got.v": string(a), "want.v": string(b)})
+	}
 }
